@@ -7,26 +7,34 @@
 #include "mv_photon.h"
 #include <photon/thread/thread11.h>
 #include <atomic>
+#include <string.h>
+#include <stdlib.h>
 #include <string>
 #include <vector>
 #include <functional>
 
 namespace mvprog {
-// "gen<K>x<S>[+]": build a program from explorer choices (kind PROG: always fully enumerated) instead of a fixed string: K photon threads on
+// "gen<K>x<S>[+]" / "gen<K0>|<K1>x<S>[+]": build a program from explorer choices (kind PROG: always fully enumerated) instead of a fixed string: K photon threads on
 // one vCPU, each with 1..S ops drawn from `alphabet` (every combination), each thread starting after 0..2 padding yields ('p': every arrival
 // order); with '+' also 0..1 padding yields ('q') before each later op. Must be called inside the exploration window. "" if `spec` is not gen.
 inline std::string generate(const char* spec, const std::vector<std::string>& alphabet) {
-    int K, S; char plus = 0;
-    if (sscanf(spec, "gen%dx%d%c", &K, &S, &plus) < 2) return "";
+    // "gen<K>x<S>[+]" or "gen<K0>|<K1>[|<K2>]x<S>[+]": K0 threads on vCPU 0, K1 on vCPU 1, ...
+    if (strncmp(spec, "gen", 3) != 0) return "";
+    int ks[4] = {0}, nk = 0, S = 0; char plus = 0; const char* c = spec + 3;
+    for (;;) { char* e; long v = strtol(c, &e, 10); if (e == c || nk >= 4) return ""; ks[nk++] = (int)v; c = e; if (*c == '|') { c++; continue; } break; }
+    if (*c != 'x') return ""; { char* e; S = (int)strtol(c + 1, &e, 10); if (e == c + 1) return ""; plus = *e; }
     std::string prog;
-    for (int k = 0; k < K; k++) {
-        if (k) prog += ',';
-        prog += 'p';
-        for (int sl = 0; sl < S; sl++) {
-            int c = pmc_choose((int)alphabet.size() + (sl ? 1 : 0), PMC_PROG, 0, "generated op");     // later slots may stay empty
-            if (c == (int)alphabet.size()) break;
-            if (sl && plus == '+') prog += 'q';
-            prog += alphabet[c];
+    for (int g = 0; g < nk; g++) {
+        if (g) prog += '|';
+        for (int k = 0; k < ks[g]; k++) {
+            if (k) prog += ',';
+            prog += 'p';
+            for (int sl = 0; sl < S; sl++) {
+                int ch = pmc_choose((int)alphabet.size() + (sl ? 1 : 0), PMC_PROG, 0, "generated op");     // later slots may stay empty
+                if (ch == (int)alphabet.size()) break;
+                if (sl && plus == '+') prog += 'q';
+                prog += alphabet[ch];
+            }
         }
     }
     return prog;
